@@ -231,8 +231,21 @@ _sched("C01", "Theorems over every accepted trace of the executor LTS (all progr
               "wakeAfterDone / depsExitedBefore hold on every accepted trace.")
 _sched("C06", "Theorems over every accepted trace: a dedup key is registered at most once and held by exactly one activation; only the registering "
               "activation runs a body, every other activation meeting the key becomes a waiter that never starts a command and returns the execution's "
-              "outcome after it finished; run: always never dedups. Whether two references get the same key exactly when they are observably equal is "
-              "the hash function's business: checked by the harness (key vs. observable digest), see DESIGN.")
+              "outcome after it finished; run: always never dedups. Key half (Props.C06Key): with a hash that reaches every part of the compiled task two "
+              "references of a when_changed task get the same key iff they are called with the same set of variable values, so for every arrival order "
+              "the executions are exactly one per distinct set (whenChanged_exact, _order_indep); once executes the first reference only, always every "
+              "reference; that the code's hash reaches the resolved variables, command texts, env: and the vars: of sub-calls and dependencies is the "
+              "obligation hash_reaches_all / no_opaque_field / key_functions over the regenerated Gen.HashFields (typed extractor: exported fields, "
+              "Hashable types, GetHash's mode table).")
+PROPS["C06"]["domains"].append({"name": "wc"})
+PROPS["C06"]["prop_modules"] = ["Props.C06", "Props.C06Key"]
+PROPS["C06"]["trusted"] = PROPS["C06"]["trusted"] + [
+    "the 64-bit structural hash is idealised as injective on what it reaches (a collision is outside the model); that (*ast.Vars).Hash covers every "
+    "entry is checked by the wc correspondence (generated references whose values reach only env:, only a sub-call, only a dependency, or nothing), "
+    "not by a theorem"]
+PROPS["C06"]["level_text"] += (" Second tie (domain wc): generated Taskfiles reference one deduplicated task from dependencies and commands, directly, "
+                               "through pass-through tasks and through an include, with generated sets of variable values; the sorted lines printed by "
+                               "the executions must equal the model's executions under the full hash.")
 
 
 PROPS["C10"] = {
